@@ -1,10 +1,30 @@
 """What MANIFEST.json claims, per property."""
 HOOK_COMMITS = ["77b2c42", "6128e10", "5f416f7", "71aa134", "8a2b985", "97ca607"]
-FIX_COMMITS = ["5da2d24", "9b55744", "1ceb643", "2d49340", "9d87992", "737054a"]
+FIX_COMMITS = ["5da2d24", "9b55744", "1ceb643", "2d49340", "9d87992", "737054a", "6331ab3"]
 NOTES = ("Every check: TLC model-checks the module's design on small constants, then binds it to /repo's current working "
          "tree (rebuilt on every run with -tags verif). Exit 2 = infrastructure problem, never a verdict.")
 NOT_APPLICABLE = {}
 CHECKS = {
+    "C06": {
+        "text": "FzfReader.tla (stream = record lengths + unterminated flag; Read(n) for every n the OS may return, SlabRotate, Eof; "
+                "items as stream byte ranges with slab regions lent) and FzfChunkList.tla (chunk heap, Push with header diversion "
+                "and running index, Snapshot(tail) with trimming and chunk duplication) are model-checked exhaustively on small "
+                "constants (buffer 3, slab 6, <=5 records of 0..7 bytes, all chunkings; chunk 2/3): emitted is always a prefix of "
+                "Records(stream) and equals it at EOF, no slab region is lent twice or rewritten, snapshots are the last N "
+                "non-header records with stream-wide indices and never change. TLC-simulated behaviours with the real "
+                "64K/128K/100 constants are replayed on the real Reader.feed (scripted io.Reader, both delimiters, contents "
+                "compared only after the stream is consumed, len(p) of every call compared) and the real ChunkList; random real "
+                "feed() runs, runs of the real binary over a burst-written pipe (fzf -f '' [+s] [--read0] [--tail] "
+                "[--header-lines] [--with-nth], up to several MB, records > 128K) and interactive tmux sessions read through "
+                "--listen are judged by TLC against Records/Searchable.",
+        "design_ref": "DESIGN.md §6 C06, §9 F10",
+        "note": "Reader/chunk constants are Go compile-time constants, so the exhaustive all-chunkings exploration is on the model "
+                "only; the real code is bound with real constants on TLC-chosen boundary read sizes plus random ones. OS-faithful "
+                "reads only (no data+error, no (0,nil)); CR trimming (Windows) not modelled; process-level contents are valid "
+                "UTF-8; numbering observed only via GET / in interactive sessions. Trusted: TLC, the harness's content/digest "
+                "identity, tmux.",
+        "technique": "TLA+ spec + TLC exhaustive MC; TLC-generated behaviours replayed on real code; real executions (in-package, binary, tmux) judged by TLC",
+    },
     "C19": {
         "text": "FzfWalker.tla (tree built by AddFile/AddDir/AddLinkToFile/AddLinkToDir/AddDanglingLink; Expected(roots, file/dir/"
                 "follow/hidden, skip patterns) per the manual) is model-checked for exactly-once, resolves-to-entry, pruned-"
